@@ -25,13 +25,12 @@ BINS = ["c09"]
 NEEDS_CICADA = True
 ALLOWED_AXIOMS = []
 PINNED = ["C09_full", "C09_refuted", "C09_partial", "C09_step", "C09_abs", "C09_pwd", "C09_full_after_repairs",
-          "C09_refuted_ifs_shadowed", "C09_refuted_read_rejoined", "C09_refuted_cd_home_not_exported", "C09_nonvacuous"]
-# Which of the proposed repairs notes/C09-fix-3..5.patch the tree under test contains (letters: e = export removes
-# the shell-local binding, r = read cuts with splitn, c = cd takes HOME like a reference). The model, the
-# specification's bookkeeping and the known-class predicate are parametric in these flags and the theorems hold for
-# EVERY setting, so choosing the instance is not a loosening: the driver asks the implementation three one-line
-# questions (detect_fixes) and then compares the whole behaviour with the model instance that answers alike.
-# $C09_FIXES overrides the detection. When a repair is committed, turn its finding: line into a fixed: line.
+          "C09_refuted_read_rejoined", "C09_read_repaired", "C09_read_remainder_verbatim", "C09_nonvacuous"]
+# Does /repo contain the proposed repair of `read` (notes/C09-fix-6.patch: split_into_fields_n)?  The model and the
+# specification of read are parametric in this flag (fx_read) and the theorems are proved for both settings; the
+# registered instance is the one that transcribes the code in /repo. When the repair is committed set this to "r"
+# and turn the finding: line of read-remainder-rejoined into a fixed: line. $C09_FIXES overrides (private worktrees).
+FIXES_IN_TREE = ""
 TRUSTED = [
     "Coq 8.16.1 kernel (coqc; coqchk in thorough); vm_compute only in Example witnesses and refutation witnesses",
     "hand transcription of set_env/get_env/remove_env/expand_one_env's lookup, drain_env_tokens, run_proc, the child "
@@ -58,7 +57,7 @@ VALUES = ["1", "2", "abc", "x y", "", "a=b", "p:q", "it's", 'say "hi"', " lead",
           "a b=c:d", "::", "k='v'", 'k="v"']
 IFS_VALUES = [":", ",", " ", ":,", "", "x"]
 LINES = ["x y z", "x:y z:w:v", "a", "", "p,q,r", "x:y,z", "  x   y ", "a b", "a:b", "one two three four", "u:v:w", "m, n",
-         "a\tb c", ":x:", "a,b c,d"]
+         "a\tb c", ":x:", "a,b c,d", "x  y", "x  y   z", "\tx \t y", "a:b::c", "::a", "a ,, b", "x y  "]
 
 
 def qstyle(v, rng):
@@ -554,9 +553,7 @@ def run(ctx, res):
         make_tree(root)
         extra = [root + s for s in ["/home", "/d1", "/nope", "/ln1", "/f1", "/ln1/d3", "/e1/abs/d2", "", "/d1/d2/back"]]
         fstab = fs_table(root, extra)
-        if "C09_FIXES" not in os.environ or getattr(ctx, "_c09_detected", False):
-            os.environ["C09_FIXES"] = detect_fixes(ctx, root, fstab)
-            ctx._c09_detected = True
+        os.environ["C09_FIXES"] = os.environ.get("C09_FIXES", FIXES_IN_TREE)
         res.extra["fix_flags"] = os.environ["C09_FIXES"]
         if ctx.replay:
             r = json.load(open(ctx.replay))
@@ -653,27 +650,6 @@ def run(ctx, res):
         res.extra["violations_total_before_cap"] = judge.nviol
     finally:
         shutil.rmtree(work, ignore_errors=True)
-
-
-def detect_fixes(ctx, root, fstab):
-    """Which model instance does the tree under test follow?  Three two-operation histories."""
-    a1, a2, i1 = [("b", "A", "1")], [("b", "A", "2")], [("s", "IFS", ":")]
-    probes = [
-        [Op("assign", ["A"] + asg_items(a1), "A=1"), Op("export", ["E"] + asg_items(a2), "export A=2")],
-        [Op("read", ["R", "2", "A", "B", "x:y:z"] + asg_items(i1), "IFS=':' read A B <<< 'x:y:z'")],
-        [Op("unset", ["U", "HOME"], "unset HOME"), Op("cd", ["C"], "cd")],
-    ]
-    path = C.write_cases("c09_detect.txt", [hist_case(root, fstab, ops) for ops in probes])
-    out = C.run_impl(ctx.bins["c09"], path, len(probes), shards=1, env={"HX_CASE_TIMEOUT_MS": "30000"})
-    cells = [(o or "").split("\t") for o in out]
-    flags = ""
-    if len(cells[0]) >= 2 and "|L{} " in cells[0][1]:
-        flags += "e"
-    if len(cells[1]) >= 1 and 'B="y:z"' in cells[1][0]:
-        flags += "r"
-    if len(cells[2]) >= 2 and cells[2][1].startswith("st=1|"):
-        flags += "c"
-    return flags
 
 
 def witnesses(root, hp):
